@@ -465,7 +465,11 @@ def rule_sudoku(F, R):
     # the whole puzzle text is read, from either channel: read_to_string on the file and on stdin (read_line would stop at the first row)
     t_main = c.ithir['sudoku_gen::main']
     reads = [x for x in walk(t_main['body']) if x['k'] == 'Call' and (callee_name(x) or '').split('::')[-1] in ('read_to_string', 'read_line', 'read', 'read_exact', 'read_until', 'lines', 'read_to_end')]
-    okr = len(reads) >= 2 and all((callee_name(x) or '').split('::')[-1] == 'read_to_string' for x in reads)
+    chans = set()
+    for x in walk(t_main['body']):
+        if x['k'] == 'Call' and callee_name(x) == 'std::io::stdin': chans.add('stdin')
+        if x['k'] == 'Call' and callee_name(x) == 'std::fs::File::open': chans.add('file')
+    okr = len(reads) >= 1 and all((callee_name(x) or '').split('::')[-1] == 'read_to_string' for x in reads) and chans == {'stdin', 'file'}
     R.count('U:input-reads', len(reads)); R.obligation(okr, 'U reads')
     if not okr: R.violation('sudoku_gen::main / U / input', 'U', 'the puzzle text must be read completely (read_to_string) from the input file and from stdin; found %s' % [(callee_name(x) or '').split('::')[-1] for x in reads])
     tail_true = any(s.strip() == 'true' for s in texts)
